@@ -141,12 +141,19 @@ func VerifC06_ErrorFcall() {
 	tag := Tag(ndU16("tag"))
 	text := ndString("text", ndChoice("len", 4))
 	var err error
-	switch ndChoice("kind", 3) {
+	switch ndChoice("kind", 6) {
 	case 0:
 		err = MessageRerror{Ename: text}
 	case 1:
 		e := MessageRerror{Ename: text}
 		err = &e
+	case 3: // an error that is not a 9P error itself but wraps one: its own text counts
+		err = vWrapErr{text, MessageRerror{Ename: ndString("inner", 1)}}
+	case 4:
+		e := MessageRerror{Ename: ndString("inner", 1)}
+		err = vWrapErr{text, &e}
+	case 5:
+		err = vWrapErr{text, vTextErr{ndString("inner", 1)}}
 	default:
 		err = vTextErr{text}
 	}
@@ -158,6 +165,14 @@ func VerifC06_ErrorFcall() {
 }
 
 type vTextErr struct{ s string }
+
+type vWrapErr struct {
+	s     string
+	inner error
+}
+
+func (e vWrapErr) Error() string { return e.s }
+func (e vWrapErr) Unwrap() error { return e.inner }
 
 func (e vTextErr) Error() string { return e.s }
 
